@@ -67,7 +67,9 @@ pub fn codec_case(case: &Value, dispatch: Dispatch, r: &mut Report) {
         let want_detail = format!("{short}::{ctor}");
         for (i, o) in ops.encode(v).iter().enumerate() {
             let ok = match o {
-                Outcome::Err(c, d) => *c == class && (class != "TransientCtor" || *d == want_detail),
+                // (a constructor name given as "*Name": the value is held somewhere inside, the error names the holder's enum)
+                Outcome::Err(c, d) => *c == class && (class != "TransientCtor" || *d == want_detail
+                    || (ctor.starts_with('*') && d.ends_with(&format!("::{}", &ctor[1..])))),
                 _ => false,
             };
             if !ok {
